@@ -126,9 +126,29 @@ def newGraphOp : Handler := fun args =>
   | .ok (.arr a) => Json.mkObj [("outs", Json.arr (a.map graphOut))]
   | _ => Json.mkObj [("bad", "variants")]
 
+/-- `ApplyExtends` on same-file references.  args: `services` = `[[name, extendsOrNull, bodyVal]…]` (sorted by name).
+The merge is `mergeGenericKVs` (bodies use only attributes without special merge rules). -/
+def extendsOp : Handler := fun args =>
+  match args.getObjVal? "services" with
+  | .ok (.arr a) =>
+    let svcs : Option (AL (XSvc Val.KVs)) := a.toList.mapM fun e => match e with
+      | .arr #[.str n, ext, body] =>
+        match Val.ofJson body with
+        | .ok (.map kvs) => some (n, ((match ext with | .str r => some r | _ => none), kvs))
+        | _ => none
+      | _ => none
+    match svcs with
+    | none => Json.mkObj [("bad", "services")]
+    | some m =>
+      let mrg : Val.KVs → Val.KVs → Val.KVs := fun b o => match mergeGenericKVs b o with | .ok r => r | .error _ => []
+      match applyAll mrg (m.length + 1) (akeys m) m with
+      | none => Json.mkObj [("err", true)]
+      | some mf => Json.mkObj [("ok", Val.toJson (.map (mf.map fun kv => (kv.1, Val.map kv.2.2))))]
+  | _ => Json.mkObj [("bad", "services")]
+
 def handlers : List (String × Handler) := [
   ("c02.pmatch", pmatchOp), ("c02.table", tableOp), ("c02.ruleAt", ruleAtOp), ("c02.intoSeq", intoSeqOp),
   ("c02.ssh", sshOp), ("c02.hosts", hostsOp), ("c02.mapping", mappingOp), ("c02.merge", mergeOp), ("c02.mergeSeq", mergeSeqOp),
-  ("c02.newGraph", newGraphOp)]
+  ("c02.newGraph", newGraphOp), ("c02.extends", extendsOp)]
 
 end CV.Ops.C02
